@@ -276,6 +276,10 @@ func (st *stream) readPrefixedString(prefixLen uint8) (firstByte byte, s string,
 	return firstByte, s, err
 }
 
+// maxFieldStringSize is the longest field name or value the decoder accepts
+// (the same order of magnitude as net/http's DefaultMaxHeaderBytes).
+const maxFieldStringSize = 1 << 20
+
 // readPrefixedStringWithByte reads an RFC 7541 string from st.
 // The first byte has already been read from the stream.
 func (st *stream) readPrefixedStringWithByte(firstByte byte, prefixLen uint8) (s string, err error) {
@@ -284,6 +288,11 @@ func (st *stream) readPrefixedStringWithByte(firstByte byte, prefixLen uint8) (s
 		return "", errQPACKDecompressionFailed
 	}
 	if st.lim >= 0 && size > st.lim {
+		return "", errQPACKDecompressionFailed
+	}
+	// The frame length is chosen by the peer (up to 2^62-1), so it does not
+	// bound the allocation below; no field of a sane message is this long.
+	if size > maxFieldStringSize {
 		return "", errQPACKDecompressionFailed
 	}
 
